@@ -154,6 +154,16 @@ def run_replace(crystal, rq, prev=None, want_obj=False):
         sp.positions = sp.positions @ Rp.T + tp
         if len(rp) > 0:
             rp.positions = rp.positions @ Rp.T + tp
+        # the two patterns built from ONE coordinate array (the search pattern from a slice of it) and then moved jointly
+        # with translate(): a constructor that keeps the caller's array would move the shared atoms twice
+        if prev is None and v["rseed"] % 4 == 1 and len(rp) >= len(sp) > 0 and Krp["pos"][:len(Ksp["pos"])] == Ksp["pos"]:
+            shared = np.array(rp.positions, dtype=float)
+            shared[:len(sp)] = sp.positions
+            sp = render(Ksp, R, positions=shared[:len(sp)])
+            rp = render(Krp, R, positions=shared)
+            t2 = np.random.default_rng(v["rseed"]).uniform(-9, 9, size=3)
+            sp.translate(t2)
+            rp.translate(t2)
     before = (snapshot(st), snapshot(sp), snapshot(rp))
     kw = {}
     if v["hints"] is not None:
